@@ -336,6 +336,10 @@ func (env *Env) selectField(x Val, name string) (Val, error) {
 				continue
 			}
 			cur = fx.loadField(env.heap, cur.one(), owner, idx)
+			// values stored in the heap are well-typed (lengths are non-negative, integers in range ...)
+			if wt := fx.wellTyped(cur, nil); wt != tTrue && len(env.bound) == 0 {
+				fx.c.assert(wt)
+			}
 			continue
 		}
 		st, ok := fx.structOf(cur.T)
@@ -795,6 +799,22 @@ func (env *Env) call(n *ast.CallExpr) (Val, error) {
 			t = bt
 		}
 		return Val{T: t, L: []string{app(fname, as...)}}, nil
+	case "constmethod":
+		// constmethod(x, M): the result of calling the parameterless method M on interface value x, where every
+		// implementation either has a contract `ensures[const] result == C` or is left uninterpreted
+		a, err := arg(0)
+		if err != nil {
+			return Val{}, err
+		}
+		id, ok := n.Args[1].(*ast.Ident)
+		if !ok || a.T == nil || !isInterface(a.T) {
+			return Val{}, fmt.Errorf("constmethod(interfaceValue, MethodName)")
+		}
+		t, rt, _, err := fx.constMethodTerm(a, id.Name)
+		if err != nil {
+			return Val{}, err
+		}
+		return Val{T: rt, L: []string{t}}, nil
 	case "typeid":
 		t, err := env.typeExpr(n.Args[0])
 		if err != nil {
@@ -988,4 +1008,66 @@ func (fx *FnExec) useAxioms(name string) {
 		fx.c.items = append(fx.c.items, "(assert "+ax.Text+")")
 		fx.e.axiomUsed[ax.Name] = true
 	}
+}
+
+// constMethodTerm builds ite(typ = id1, C1, ite(typ = id2, C2, ... unknown(typ, payload)))
+func (fx *FnExec) constMethodTerm(x Val, method string) (string, types.Type, string, error) {
+	ids := fx.e.implementors(x.T)
+	unk := smtName("method." + method)
+	var rt types.Type
+	term := ""
+	type alt struct {
+		id int
+		c  string
+	}
+	var alts []alt
+	for _, id := range ids {
+		t := fx.e.tt.types[id-1]
+		ms := fx.e.prog.MethodSets.MethodSet(t)
+		var sel *types.Selection
+		for i := 0; i < ms.Len(); i++ {
+			if ms.At(i).Obj().Name() == method {
+				sel = ms.At(i)
+			}
+		}
+		if sel == nil {
+			continue
+		}
+		obj := sel.Obj().(*types.Func)
+		sig := obj.Type().(*types.Signature)
+		if sig.Results().Len() != 1 {
+			return "", nil, "", fmt.Errorf("constmethod: %s must return one value", method)
+		}
+		rt = sig.Results().At(0).Type()
+		c := fx.e.contracts[funcKeyOf(obj)]
+		if c == nil {
+			continue
+		}
+		for _, en := range c.Ens {
+			if en.Label == "const" && strings.HasPrefix(en.Text, "result == ") {
+				env := &Env{fx: fx, names: map[string]Val{}, heap: &fx.cur, pkg: obj.Pkg()}
+				ex, err := parseSpecExpr(strings.TrimPrefix(en.Text, "result == "))
+				if err != nil {
+					continue
+				}
+				v, err := env.eval(ex)
+				if err != nil || len(v.L) != 1 {
+					continue
+				}
+				alts = append(alts, alt{id, v.L[0]})
+			}
+		}
+	}
+	if rt == nil {
+		return "", nil, "", fmt.Errorf("constmethod: no implementation of %s found", method)
+	}
+	srt := fx.e.leaves(rt)[0].Sort
+	fx.c.declareFun(unk, []string{"Int", "Int"}, srt)
+	term = app(unk, x.L[0], x.L[1])
+	var known []string
+	for i := len(alts) - 1; i >= 0; i-- {
+		term = sIte(sEq(x.L[0], intLit(int64(alts[i].id))), alts[i].c, term)
+		known = append(known, sEq(x.L[0], intLit(int64(alts[i].id))))
+	}
+	return term, rt, sOr(known...), nil
 }
